@@ -19,6 +19,9 @@ def dispatch(prop, tier, replay):
     if prop in ("C04", "C09"):
         from . import check_image
         return check_image.check(prop, tier).finish()
+    if prop == "C06":
+        from . import check_c06
+        return check_c06.check(tier).finish()
     if prop == "C07":
         from . import check_srcimage
         return check_srcimage.check_c07(tier).finish()
